@@ -242,7 +242,25 @@ pub fn judge_from_f32(v: f32) -> Verdict {
     }
 }
 
+pub fn hist_judge(c: &crate::hist::HCall, _l: Option<&mut Local>) -> Verdict {
+    if c.kind != 1 {
+        return Verdict::Skip;
+    }
+    match c.code {
+        4 => to_i128(c.a),
+        5 => to_u128(c.a),
+        6 => to_i64(c.a),
+        7 => to_u64(c.a),
+        8 => to_i32(c.a),
+        9 => to_u8(c.a),
+        _ => Verdict::Skip,
+    }
+}
+
 pub fn replay(call: &str, _clause: &str, args: &[u64]) -> Verdict {
+    if call == "hist" {
+        return crate::hist::replay(args, &hist_judge);
+    }
     let w = |a: &[u64]| (a[0] as u128) | ((*a.get(1).unwrap_or(&0) as u128) << 64);
     let x = |a: &[u64]| [f64::from_bits(a[0]), f64::from_bits(a[1])];
     match call {
@@ -557,5 +575,21 @@ pub fn run(r: &mut Runner) {
                 judge_to_all(gs[i], l, &rec, (1u64 << 49) + i as u64);
             }
         });
+    }
+    {
+        use crate::hist::HCall;
+        // narrow and wide conversions of the same values, in every order (a shared truncation cache must not leak between them)
+        let vals: Vec<[f64; 2]> = vec![[2f64.powi(62), 3.0], [5.0, 0.0], [2f64.powi(60), 1.0], [-0.5, 0.0], [9223372036854775807.0, -1.0], [300.75, 1e-14]];
+        let mut groups: Vec<Vec<HCall>> = vec![];
+        for w in vals.windows(2) {
+            let mut g = vec![];
+            for v in w {
+                for k in [4u8, 6, 7, 8, 9] {
+                    g.push(HCall::ext(k, *v, [0.0, 0.0]));
+                }
+            }
+            groups.push(g);
+        }
+        crate::hist::explore(r, "histories: TwoFloat -> integer conversions (narrow and wide, two values)", &groups, 3, &hist_judge, 14u64 << 55);
     }
 }
